@@ -11,11 +11,12 @@ pub mod c13;
 pub mod c14;
 pub mod c16;
 pub mod c19;
+pub mod c20;
 
 use crate::core::PropSpec;
 
 pub fn all() -> Vec<&'static PropSpec> {
-    vec![&agent::C01, &agent::C02, &agent::C03, &agent::C04, &c05::C05, &c06::C06, &c06::C07, &c08::C08, &c09::C09, &c10::C10, &c11::C11, &c12::C12, &c13::C13, &c14::C14, &agent::C15, &c16::C16, &c11::C17, &c05::C18, &c19::C19]
+    vec![&agent::C01, &agent::C02, &agent::C03, &agent::C04, &c05::C05, &c06::C06, &c06::C07, &c08::C08, &c09::C09, &c10::C10, &c11::C11, &c12::C12, &c13::C13, &c14::C14, &agent::C15, &c16::C16, &c11::C17, &c05::C18, &c19::C19, &c20::C20]
 }
 
 pub fn lookup(id: &str) -> Option<&'static PropSpec> {
